@@ -249,6 +249,17 @@ Section World.
     | RRaise => IRaise
     end.
 
+  (* several constructions in one process (the same netlist object, the same description, any
+     order): a Die keeps nothing of the constructions before it, so each result is that of a fresh
+     construction with its own arguments (the class-wide tolerances, which the FIRST design of a
+     process defines, are arguments here: eps, aeps; their history is C20's subject) *)
+  Record construction := mkCall {
+    c_eps : Qc; c_aeps : Qc; c_deps : Qc; c_tin : Qc;
+    c_input : die_input; c_fixed : list Rect; c_cover : list irect }.
+  Definition construct (c : construction) : in_result :=
+    die_in_with_cover (c_eps c) (c_aeps c) (c_deps c) (c_tin c) (c_input c) (c_fixed c) (c_cover c).
+  Definition construct_all (calls : list construction) : list in_result := map construct calls.
+
   (* the description an input stands for *)
   Definition desc_of (i : die_input) (fx : list Rect) : option desc :=
     match resolve i with RTree t => Some (mkDesc t fx) | _ => None end.
